@@ -15,7 +15,7 @@ use crate::{
     },
     base::types::{self, ArcType},
     gc::{CloneUnrooted, GcPtr, GcRef, Move, Trace},
-    thread::{RootedThread, ThreadInternal},
+    thread::RootedThread,
     value::{Cloner, Value},
     vm::Thread,
 };
@@ -25,6 +25,10 @@ pub struct Lazy<T> {
     // No need to traverse this thread reference as any thread having a reference to this `Sender`
     // would also directly own a reference to the `Thread`
     thread: GcPtr<Thread>,
+    // `true` if the lazy value itself lives in the global heap (it is part of the value of a
+    // module). The heap of `thread` is younger than the global heap so the result of the
+    // computation must then be moved to the global heap as well
+    in_global_heap: bool,
     _marker: PhantomData<T>,
 }
 
@@ -49,6 +53,7 @@ where
             let data: Box<dyn Userdata> = Box::new(Lazy {
                 value: Mutex::new(cloned_value),
                 thread: GcPtr::from_raw(deep_cloner.thread()),
+                in_global_heap: deep_cloner.gc().generation().is_root(),
                 _marker: PhantomData::<A>,
             });
             deep_cloner.gc().alloc(Move(data))
@@ -119,7 +124,11 @@ fn force(
             let vm = vm.root_thread();
             Either::Right(Either::Left(async move {
                 let result = match function.call_async(()).await {
-                    Ok(value) => match lazy.thread.deep_clone_value(&vm, value.get_value()) {
+                    Ok(value) => match lazy.thread.deep_clone_value_for_cell(
+                        lazy.in_global_heap,
+                        &vm,
+                        value.get_value(),
+                    ) {
                         Ok(cloned) => Ok((value, cloned)),
                         Err(err) => Err(err.to_string()),
                     },
@@ -220,6 +229,7 @@ fn lazy(f: OpaqueValue<&Thread, fn(()) -> A>) -> Lazy<A> {
         Lazy {
             value: Mutex::new(Lazy_::Thunk(f.get_value().clone_unrooted())),
             thread: GcPtr::from_raw(f.vm()),
+            in_global_heap: false,
             _marker: PhantomData,
         }
     }
